@@ -220,7 +220,7 @@ def floors(counters, tier, extra):
             out.append("xsi:type %s chosen only rarely" % t)
     for k in ("subtype_element.person", "subtype_element.collection", "subtype_element.wasRevisionOf", "ns.default_at_document",
               "ns.default_at_bundle", "ns.bundle_declares_prefixes", "dest.bytes", "dest.text", "dest.str"):
-        if counters.get(k, 0) < need // 4:
+        if counters.get(k, 0) < need // 12:
             out.append("%s seen only %d times" % (k, counters.get(k, 0)))
     out.extend(common.cov_floor(extra))
     return out
